@@ -358,3 +358,32 @@ def make_or_skip(ctx, cfg, **extra):
             ctx.violation('an admissible algebra configuration cannot be constructed', ['construct', cfg_str(cfg)], config=cfg,
                           error=f'{type(alg).__name__}: {str(alg)[:200]}')
     return None
+
+
+def sibling_sets(rng, dims=(2, 3, 4), per_dim=2):
+    """Groups of configurations that share the counts (p, q, r) - and so every key pattern - but not the sign table: the same mixed
+    signature in different generator orders, with a custom basis (other generator order / blade spellings) or as a named algebra.
+    Executed side by side in one process on the same key patterns (workload.iter_cases) they expose state that is shared between
+    algebra objects (module-level memos keyed on less than the sign table)."""
+    out = []
+    for d in dims:
+        for _ in range(per_dim):
+            while True:
+                sig = random_sig(rng, d)
+                if len(set(sig)) >= 2:
+                    break
+            perms = []
+            for _t in range(20):
+                s2 = list(sig)
+                rng.shuffle(s2)
+                if s2 != sig and s2 not in perms:
+                    perms.append(s2)
+                if len(perms) == 2:
+                    break
+            grp = [{'signature': sig}] + [{'signature': s} for s in perms]
+            grp.append({'signature': sig, 'basis': random_basis(rng, d, rng.choice((0, 1)))})
+            rng.shuffle(grp)
+            out.append(grp)
+    out.append([{'signature': [1, 1, 0]}, {'named': '2DPGA'}, {'p': 2, 'q': 0, 'r': 1}])
+    out.append([{'signature': [1, 1, 1, 0]}, {'named': '3DPGA'}, {'p': 3, 'q': 0, 'r': 1}])
+    return out
